@@ -42,6 +42,7 @@ type lgCtx struct {
 	apiKeys map[string]int // root package `const ( produce apiKey = 0 … )`
 	versioned map[string]bool // types whose layout depends on a `v apiVersion` field
 	writerInfo [][3]string    // translated write*RequestV<N>: name, api key, version
+	msgSetOK   bool           // messageSize / messageSetSize / writeMessage / compressMessageSet translated
 }
 
 type untranslatable struct{ why string }
@@ -613,6 +614,7 @@ func extractLegacy(repo, root string) error {
 	decls := map[string]*lgType{}
 	var emitted []string
 	var writers []*ast.FuncDecl
+	msgFuncs := map[string]*ast.FuncDecl{}
 	type emission struct {
 		typ      string
 		key      int
@@ -663,6 +665,11 @@ func extractLegacy(repo, root string) error {
 				}
 			case *ast.FuncDecl:
 				_, rt := recvOf(x)
+				if x.Body != nil && ((rt == "" && (x.Name.Name == "messageSize" || x.Name.Name == "messageSetSize" || x.Name.Name == "compressMessageSet")) ||
+					(rt == "writeBuffer" && x.Name.Name == "writeMessage")) {
+					msgFuncs[x.Name.Name] = x
+					continue
+				}
 				if rt == "" || x.Body == nil {
 					continue
 				}
@@ -959,6 +966,12 @@ func extractLegacy(repo, root string) error {
 			}
 		}
 	}
+	if ms, err := c.translateMsgSet(msgFuncs); err == nil {
+		sb.WriteString(ms + "\n")
+		c.msgSetOK = true
+	} else {
+		failed = append(failed, fmt.Sprintf("(%q, %q)", "message-set writer (messageSize, messageSetSize, writeMessage, compressMessageSet)", err.Error()))
+	}
 	sort.Slice(writers, func(i, j int) bool { return writers[i].Name.Name < writers[j].Name.Name })
 	var wl []string
 	for _, fd := range writers {
@@ -1169,6 +1182,7 @@ var writerAPIs = map[string]int{"Produce": 0, "Fetch": 1, "ListOffset": 2, "List
 type wEnv struct {
 	c      *lgCtx
 	params map[string]string // Go parameter name -> Lean type
+	locals map[string]bool   // `var size int32` …: values fixed by the statements before the header (fields of Args)
 }
 
 func (e *wEnv) val(x ast.Expr) string {
@@ -1185,6 +1199,9 @@ func (e *wEnv) val(x ast.Expr) string {
 		}
 	case *ast.Ident:
 		if _, ok := e.params[v.Name]; ok {
+			return "a." + v.Name
+		}
+		if e.locals[v.Name] {
 			return "a." + v.Name
 		}
 	case *ast.CallExpr:
@@ -1237,8 +1254,12 @@ func (c *lgCtx) translateWriter(fd *ast.FuncDecl) (out string, err error) {
 	if !ok {
 		bad("unknown API %q in function name %s", api, name)
 	}
-	e := &wEnv{c: c, params: map[string]string{}}
+	e := &wEnv{c: c, params: map[string]string{}, locals: map[string]bool{}}
 	var order []string
+	codecParam := ""
+	sizeInv := false // the codec branch established `size = messageSetSize(msgs)`
+	msgLoop := false
+	sizeVar, attrVar, bufVar, msgsParam := "", "", "", ""
 	for _, p := range fd.Type.Params.List {
 		lt := ""
 		switch t := p.Type.(type) {
@@ -1260,6 +1281,15 @@ func (c *lgCtx) translateWriter(fd *ast.FuncDecl) (out string, err error) {
 			case "recordBatch":
 				lt = "RecordBatchBlob"
 			}
+		case *ast.Ellipsis:
+			if c.src(t.Elt) == "Message" && c.msgSetOK && len(p.Names) == 1 {
+				lt = "(List Message)"
+				msgsParam = p.Names[0].Name
+			}
+		}
+		if id, ok := p.Type.(*ast.Ident); ok && id.Name == "CompressionCodec" && c.msgSetOK && len(p.Names) == 1 {
+			codecParam = p.Names[0].Name // replaced by the values the codec branch leaves in size / attributes / msgs
+			continue
 		}
 		if lt == "" {
 			bad("parameter type %s", c.src(p.Type))
@@ -1275,7 +1305,79 @@ func (c *lgCtx) translateWriter(fd *ast.FuncDecl) (out string, err error) {
 	var prims []string
 	for _, st := range fd.Body.List {
 		switch s := st.(type) {
+		case *ast.DeclStmt:
+			// var size int32 / var attributes int8 / var compressed *bytes.Buffer
+			gd, ok := s.Decl.(*ast.GenDecl)
+			if !ok || gd.Tok != token.VAR || codecParam == "" {
+				bad("statement %s", c.src(st))
+			}
+			for _, sp := range gd.Specs {
+				vs := sp.(*ast.ValueSpec)
+				if len(vs.Values) != 0 {
+					bad("statement %s", c.src(st))
+				}
+				if id, ok := vs.Type.(*ast.Ident); ok && (id.Name == "int32" || id.Name == "int8") {
+					for _, n := range vs.Names {
+						e.locals[n.Name] = true
+						order = append(order, n.Name)
+						e.params[n.Name] = "Int"
+						if id.Name == "int32" {
+							sizeVar = n.Name
+						} else {
+							attrVar = n.Name
+						}
+					}
+				} else if c.src(vs.Type) == "*bytes.Buffer" && len(vs.Names) == 1 {
+					bufVar = vs.Names[0].Name
+				}
+			}
+			continue
+		case *ast.IfStmt:
+			// if codec == nil { size = messageSetSize(msgs...) } else { compressed, attributes, size, err = compressMessageSet(codec, msgs...); …; msgs = []Message{{Value: compressed.Bytes()}} }
+			norm := func(n ast.Node) string { return strings.Join(strings.Fields(c.src(n)), " ") }
+			blk, isBlk := s.Else.(*ast.BlockStmt)
+			if codecParam == "" || sizeVar == "" || attrVar == "" || bufVar == "" || msgsParam == "" || s.Init != nil || !isBlk ||
+				norm(s.Cond) != codecParam+" == nil" || len(s.Body.List) != 1 ||
+				norm(s.Body.List[0]) != sizeVar+" = messageSetSize("+msgsParam+"...)" {
+				bad("statement %s", c.src(st))
+			}
+			okCall, okMsgs := false, false
+			for _, es := range blk.List {
+				n := norm(es)
+				switch {
+				case strings.HasPrefix(n, bufVar+", "+attrVar+", "+sizeVar+", ") && strings.HasSuffix(n, " = compressMessageSet("+codecParam+", "+msgsParam+"...)"):
+					okCall = true
+				case n == msgsParam+" = []Message{{Value: "+bufVar+".Bytes()}}":
+					okMsgs = okCall
+				default:
+					if is, ok := es.(*ast.IfStmt); !ok || !strings.HasSuffix(norm(is.Cond), " != nil") {
+						bad("statement %s", c.src(es))
+					}
+				}
+			}
+			if !okCall || !okMsgs {
+				bad("codec branch does not leave size = messageSetSize(msgs): %s", c.src(st))
+			}
+			sizeInv = true
+			continue
+		case *ast.RangeStmt:
+			// for _, msg := range msgs { wb.writeMessage(msg.Offset, attributes, msg.Time, msg.Key, msg.Value, cw) }
+			norm := func(n ast.Node) string { return strings.Join(strings.Fields(c.src(n)), " ") }
+			if codecParam == "" || norm(s.Key) != "_" || s.Value == nil || norm(s.X) != msgsParam || len(s.Body.List) != 1 || attrVar == "" {
+				bad("statement %s", c.src(st))
+			}
+			m := norm(s.Value)
+			body := norm(s.Body.List[0])
+			if !strings.HasPrefix(body, "wb.writeMessage("+m+".Offset, "+attrVar+", "+m+".Time, "+m+".Key, "+m+".Value, ") {
+				bad("statement %s", c.src(st))
+			}
+			writes = append(writes, "(writeEach a."+msgsParam+" (fun msg => writeMessage a.crc msg.Offset a."+attrVar+" msg.Time msg.Key msg.Value))")
+			msgLoop = true
+			continue
 		case *ast.AssignStmt:
+			if codecParam != "" && s.Tok == token.DEFINE && len(s.Rhs) == 1 && strings.HasPrefix(strings.Join(strings.Fields(c.src(s.Rhs[0])), " "), "&crc32Writer{") {
+				continue
+			}
 			if len(s.Lhs) != 1 || len(s.Rhs) != 1 {
 				bad("statement %s", c.src(st))
 			}
@@ -1330,6 +1432,9 @@ func (c *lgCtx) translateWriter(fd *ast.FuncDecl) (out string, err error) {
 			if !ok {
 				bad("statement %s", c.src(st))
 			}
+			if codecParam != "" && c.src(st) == "releaseBuffer("+bufVar+")" {
+				continue
+			}
 			sel, ok := call.Fun.(*ast.SelectorExpr)
 			if !ok {
 				bad("statement %s", c.src(st))
@@ -1374,10 +1479,27 @@ func (c *lgCtx) translateWriter(fd *ast.FuncDecl) (out string, err error) {
 	if size == "" || len(writes) == 0 {
 		bad("no h.Size assignment / no writes")
 	}
+	if codecParam != "" && (!sizeInv || !msgLoop) {
+		bad("message-set writer without codec branch / message loop")
+	}
 	var sb strings.Builder
 	fmt.Fprintf(&sb, "structure %s.Args where\n", name)
 	for _, n := range order {
 		fmt.Fprintf(&sb, "  %s : %s\n", n, e.params[n])
+	}
+	if codecParam != "" {
+		fmt.Fprintf(&sb, "  crc : Bytes → Int\n")
+		fmt.Fprintf(&sb, "/-- the `requestHeader{…}` literal of %s -/\n", name)
+		fmt.Fprintf(&sb, "def %s.hdr0 (a : %s.Args) : requestHeader :=\n  { Size := 0, ApiKey := %s, ApiVersion := %s, CorrelationID := %s, ClientID := %s }\n",
+			name, name, hdr["ApiKey"], hdr["ApiVersion"], hdr["CorrelationID"], hdr["ClientID"])
+		fmt.Fprintf(&sb, "/-- `h.Size = …` (size, attributes, msgs: the values the `codec == nil` / compressed branch leaves) -/\ndef %s.announced (a : %s.Args) : Int :=\n  %s\n", name, name, strings.ReplaceAll(size, "HSIZE", "(requestHeader.size ("+name+".hdr0 a))"))
+		fmt.Fprintf(&sb, "def %s.bytes (a : %s.Args) : Bytes :=\n  %s\n", name, name, strings.Join(writes, " ++\n  "))
+		fmt.Fprintf(&sb, "/-- both branches of `if codec == nil` establish `size = messageSetSize(msgs)` (checked on the source: the plain branch assigns it,\ncompressMessageSet returns `messageSetSize(Message{Value: compressed})` and msgs becomes that one message); under it the size\nprefix announces exactly the bytes that follow -/\n")
+		fmt.Fprintf(&sb, "theorem %s.legacy_size (a : %s.Args) (hsize : a.SIZEVAR = messageSetSize a.MSGSVAR) : ((%s.bytes a).length : Int) = 4 + %s.announced a := by\n  have hm := messageSet_len a.crc a.ATTRVAR a.MSGSVAR\n  simp only [%s.bytes, %s.announced, %s.hdr0, requestHeader.size, milliseconds, hsize, List.length_append, Int.natCast_add]\n  simp only [requestHeader.writeTo, List.length_append, Int.natCast_add, len_writeInt16, len_writeInt32, len_writeString, len_writeArrayLen, hm, sizeofString]\n  omega\n",
+			name, name, name, name, name, name, name)
+		fmt.Fprintf(&sb, "theorem %s.legacy_header_version (a : %s.Args) : (%s.hdr0 a).ApiVersion = %s ∧ (%s.hdr0 a).ApiKey = %d := by\n  simp [%s.hdr0]\n",
+			name, name, name, wantVer, name, wantKey, name)
+		return strings.NewReplacer("SIZEVAR", sizeVar, "ATTRVAR", attrVar, "MSGSVAR", msgsParam).Replace(sb.String()), nil
 	}
 	fmt.Fprintf(&sb, "/-- the `requestHeader{…}` literal of %s (Size is assigned afterwards) -/\n", name)
 	fmt.Fprintf(&sb, "def %s.hdr0 (a : %s.Args) : requestHeader :=\n  { Size := 0, ApiKey := %s, ApiVersion := %s, CorrelationID := %s, ClientID := %s }\n",
